@@ -31,7 +31,7 @@ from fractions import Fraction
 VERIF = os.path.dirname(os.path.dirname(os.path.abspath(__file__)))
 REPO = os.environ.get("UNYT_VERIF_REPO", "/repo")
 SPEC_DIR = os.path.join(VERIF, "spec")
-EVIDENCE_DIR = os.path.join(VERIF, "evidence")
+EVIDENCE_DIR = os.environ.get("VERIF_EVIDENCE_DIR") or os.path.join(VERIF, "evidence")  # override: seeded-change experiments
 REPLAY_DIR = os.path.join(EVIDENCE_DIR, "replay")
 NCPU = int(os.environ.get("VERIF_NCPU", "16"))
 TLC_JAR_CP = "/opt/veriftools/tla/tla2tools.jar:/opt/veriftools/tla/CommunityModules-deps.jar"
